@@ -41,11 +41,22 @@ Inductive expr :=
   | EIfPos (c a b : expr)
   | ECall (f : expr) (args : list expr).
 
+(* compound statements whose body runs exactly once, in place: what matters about them is that the static pre-pass
+   (get_names_set, check_for_closure) has to look through them *)
+Inductive wrap :=
+  | WIf            (* if 1: body *)
+  | WWhile         (* while True: body; break *)
+  | WFor           (* for w_ in [0]: body            (binds w_) *)
+  | WTry           (* try: body / finally: pass *)
+  | WHandler       (* try: raise ValueError / except ValueError: body *)
+  | WElse.         (* try: pass / except ValueError: pass / else: body *)
+
 Inductive stmt :=
   | SAssign (x : ident) (e : expr)
   | SExpr (e : expr)
   | SReturn (e : expr)
   | SDef (d : fdef)
+  | SWrap (w : wrap) (body : list stmt)
 with fdef :=
   | FDef (name : ident) (params globals nonlocals : list ident) (body : list stmt).
 
@@ -56,7 +67,7 @@ Definition d_nonlocals (d : fdef) := match d with FDef _ _ _ n _ => n end.
 Definition d_body (d : fdef) := match d with FDef _ _ _ _ b => b end.
 
 (* ---------- values, store, state ---------- *)
-Inductive val := VInt (z : Z) | VNone | VClo (d : fdef) (cap : list (ident * nat)).
+Inductive val := VInt (z : Z) | VNone | VClo (d : fdef) (cap : list (ident * nat)) | VBuiltin (x : ident).
 
 Record state := {
   st_store : list (option val);          (* cells (EvalLocalVar objects / CPython cell objects); None = unassigned *)
@@ -66,7 +77,9 @@ Record state := {
 
 Inductive err := ENameErr | ETypeErr | ESyntaxErr.
 (* [Anomaly k]: the strict run stopped; k = 1 dynamic-scope capture, 2 private copy of an unassigned captured cell,
-   3 var_names differ from the free variables, 0 an internal consistency check *)
+   3 var_names differ from the free variables, 4 a declared-global name that only the builtins define,
+   5 an unassigned plain local named like a builtin,
+   0 an internal consistency check *)
 Inductive outcome (A : Type) := Ok (a : A) (st : state) | Err (e : err) | Fuel | Anomaly (k : nat).
 Arguments Ok {A}. Arguments Err {A}. Arguments Fuel {A}. Arguments Anomaly {A}.
 
@@ -117,9 +130,19 @@ Fixpoint names_expr (e : expr) : list ident :=
   | ECall f args => names_expr f ++ flat_map names_expr args
   end.
 
-(* names bound by the statements of one body (nested bodies not entered): assignment targets and def names *)
-Definition bound_stmt (s : stmt) : list ident :=
-  match s with SAssign x _ => [x] | SDef d => [d_name d] | _ => [] end.
+Definition wrap_names (w : wrap) : list ident :=
+  match w with WFor => ["w_"%string] | WHandler | WElse => ["ValueError"%string] | _ => [] end.
+Definition wrap_binds (w : wrap) : list ident := match w with WFor => ["w_"%string] | _ => [] end.
+
+(* names bound by the statements of one body (bodies of nested defs not entered, compound statements entered):
+   assignment targets, def names, loop variables *)
+Fixpoint bound_stmt (s : stmt) : list ident :=
+  match s with
+  | SAssign x _ => [x]
+  | SDef d => [d_name d]
+  | SWrap w body => wrap_binds w ++ flat_map bound_stmt body
+  | _ => []
+  end.
 
 (* get_names_set's `names` for one statement; for a nested def: its name and the names it leaves unbound, where pyscript
    subtracts the inner function's assigned names and its global declarations, but neither its parameters nor the fact
@@ -129,6 +152,7 @@ Fixpoint vn_stmt (s : stmt) : list ident :=
   | SAssign x e => x :: names_expr e
   | SExpr e | SReturn e => names_expr e
   | SDef d => d_name d :: vn_free d
+  | SWrap w body => wrap_names w ++ flat_map vn_stmt body
   end
 with vn_free (d : fdef) : list ident :=
   match d with
@@ -140,8 +164,14 @@ with vn_free (d : fdef) : list ident :=
 (* resolve_nonlocals: var_names = args + get_names of every body statement (declarations add their names too) *)
 Definition vn_ps (d : fdef) : list ident :=
   d_params d ++ d_globals d ++ d_nonlocals d ++ flat_map vn_stmt (d_body d).
-Definition has_closure (d : fdef) : bool :=
-  existsb (fun s => match s with SDef _ => true | _ => false end) (d_body d).
+(* EvalFunc.check_for_closure: is there a def anywhere below the statements of the body (ast.iter_child_nodes, all depths) *)
+Fixpoint has_def (s : stmt) : bool :=
+  match s with
+  | SDef _ => true
+  | SWrap _ body => existsb has_def body
+  | _ => false
+  end.
+Definition has_closure (d : fdef) : bool := existsb has_def (d_body d).
 
 (* reference: names a function uses; a nested function contributes its name and its free variables = what it uses
    minus its parameters, the names it binds and its global declarations (names declared nonlocal stay free) *)
@@ -150,6 +180,7 @@ Fixpoint uses_stmt (s : stmt) : list ident :=
   | SAssign x e => x :: names_expr e
   | SExpr e | SReturn e => names_expr e
   | SDef d => d_name d :: free_py d
+  | SWrap w body => wrap_names w ++ flat_map uses_stmt body
   end
 with free_py (d : fdef) : list ident :=
   match d with
@@ -166,6 +197,7 @@ Fixpoint cand_stmt (s : stmt) : list ident :=
   | SAssign x e => x :: names_expr e
   | SExpr e | SReturn e => names_expr e
   | SDef d => cand_def d
+  | SWrap w body => wrap_names w ++ flat_map cand_stmt body
   end
 with cand_def (d : fdef) : list ident :=
   match d with FDef n ps gs ns body => n :: ps ++ gs ++ ns ++ flat_map cand_stmt body end.
@@ -184,12 +216,24 @@ Fixpoint node_expr (e : expr) : node :=
   | EIfPos c a b => Node TgOther [] [(FChild, node_expr c); (FChild, node_expr a); (FChild, node_expr b)]
   | ECall f args => Node TgCall [] ((FChild, node_expr f) :: map (fun a => (FChild, node_expr a)) args)
   end.
-Definition node_stmt (s : stmt) : node :=
+Definition leaf : node := Node TgOther [] [].
+Fixpoint node_stmt (s : stmt) : node :=
   match s with
   | SAssign x e => Node TgAssign [] [(FTargets, nname x); (FChild, node_expr e)]
   | SExpr e => Node TgOther [] [(FChild, node_expr e)]
   | SReturn e => Node TgOther [] [(FChild, node_expr e)]
   | SDef d => Node TgDef [d_name d] []
+  | SWrap w body =>
+      let kids := map (fun b => (FChild, node_stmt b)) body in
+      match w with
+      | WIf => Node TgOther [] ((FChild, leaf) :: kids)
+      | WWhile => Node TgOther [] ((FChild, leaf) :: kids ++ [(FChild, leaf)])
+      | WFor => Node TgFor [] ((FTarget, nname "w_"%string) :: (FChild, leaf) :: kids)
+      | WTry => Node TgTry [] (kids ++ [(FChild, leaf)])
+      | WHandler => Node TgTry [] [(FChild, Node TgOther [] [(FChild, nname "ValueError"%string)]);
+                                   (FChild, Node TgHandler [] ((FChild, nname "ValueError"%string) :: kids))]
+      | WElse => Node TgTry [] ((FChild, leaf) :: (FChild, Node TgHandler [] [(FChild, nname "ValueError"%string); (FChild, leaf)]) :: kids)
+      end
   end.
 Definition nodes_of (d : fdef) : list node :=
   (match d_globals d with [] => [] | gs => [Node TgGlobal gs []] end)
@@ -216,8 +260,26 @@ Record policy := {
   p_enter : fdef -> list (ident * nat) -> list val -> state -> rent
 }.
 
+(* the builtins scope (the B of LEGB), as far as the mini language can use it *)
+Definition builtin_names : list ident := ["abs"; "max"; "min"]%string.
+Definition lk_builtin (x : ident) : rlk := if smem x builtin_names then LkVal (VBuiltin x) else LkErr.
 Definition lk_global (st : state) (x : ident) : rlk :=
-  match assoc x (st_globals st) with Some v => LkVal v | None => LkErr end.
+  match assoc x (st_globals st) with Some v => LkVal v | None => lk_builtin x end.
+Fixpoint all_ints (vs : list val) : option (list Z) :=
+  match vs with
+  | [] => Some []
+  | VInt z :: r => match all_ints r with Some l => Some (z :: l) | None => None end
+  | _ => None
+  end.
+Definition call_builtin (b : ident) (vs : list val) : option Z :=
+  match all_ints vs with
+  | Some [z] => if String.eqb b "abs" then Some (Z.abs z) else None          (* max(1): TypeError *)
+  | Some (z :: z' :: r) =>
+      if String.eqb b "max" then Some (fold_left Z.max (z' :: r) z)
+      else if String.eqb b "min" then Some (fold_left Z.min (z' :: r) z)
+      else None
+  | _ => None
+  end.
 Definition lk_cell (st : state) (a : nat) : rlk :=
   match cell_get st a with Some v => LkVal v | None => LkErr end.
 
@@ -228,20 +290,41 @@ Section Ps.
 Variable cfg : sdeviations.
 Variable strict : bool.
 
+(* an entry of a symbol table is an EvalLocalVar iff the function has an inner def (then all its locals get cells) or
+   the entry is a captured cell *)
+Definition slot_is_cell (f : frame) (x : ident) : bool :=
+  has_closure (fr_def f) || is_some_b (assoc x (fr_cap f)).
+
 (* ast_name, Load *)
 Definition ps_lookup (fr : option frame) (st : state) (x : ident) : rlk :=
   match fr with
   | None => lk_global st x
   | Some f =>
-      if smem x (d_globals (fr_def f)) then lk_global st x            (* arg.id in curr_func.global_names *)
-      else match assoc x (fr_own f ++ fr_cap f) with                  (* arg.id in self.sym_table *)
-           | Some a => lk_cell st a
-           | None =>
-               match assoc x (st_globals st) with                     (* arg.id in self.global_sym_table *)
-               | Some v => if smem x (ps_raw_locals cfg (fr_def f)) then LkErr else LkVal v
-               | None => LkErr
-               end
-           end
+      if smem x (d_globals (fr_def f)) then                           (* arg.id in curr_func.global_names: *)
+        match assoc x (st_globals st) with                            (*   the global table or NameError - the builtins *)
+        | Some v => LkVal v                                           (*   are not consulted (D302)                      *)
+        | None => if strict && smem x builtin_names then LkAnom 4 else LkErr
+        end
+      else
+        let outside :=                                                (* not in self.sym_table: *)
+          match assoc x (st_globals st) with                          (* arg.id in self.global_sym_table *)
+          | Some v => if smem x (ps_raw_locals cfg (fr_def f)) then LkErr else LkVal v
+          | None => lk_builtin x                                      (* hasattr(builtins, arg.id) *)
+          end in
+        match assoc x (fr_own f ++ fr_cap f) with
+        | Some a =>
+            match cell_get st a with
+            | Some v => LkVal v
+            | None =>
+                if slot_is_cell f x then LkErr                        (* EvalLocalVar.get() of an unassigned cell *)
+                else                                                  (* a plain local not yet in the dict: *)
+                  match outside with                                  (* a builtin of that name is returned (D303) *)
+                  | LkVal (VBuiltin _) => if strict then LkAnom 5 else outside
+                  | o => o
+                  end
+            end
+        | None => outside
+        end
   end.
 
 (* recurse_assign on a plain name *)
@@ -257,11 +340,6 @@ Definition ps_assign (fr : option frame) (st : state) (x : ident) (v : val) : op
            | None => None     (* the code would add a plain entry; never happens: every assigned name is in local_names *)
            end
   end.
-
-(* an entry of a symbol table is an EvalLocalVar iff the function has an inner def (then all its locals get cells) or
-   the entry is a captured cell *)
-Definition slot_is_cell (f : frame) (x : ident) : bool :=
-  has_closure (fr_def f) || is_some_b (assoc x (fr_cap f)).
 
 (* `for sym_table in reversed(stack + [sym_table]): if var_name in sym_table and isinstance(.., EvalLocalVar)` *)
 Fixpoint find_cell (tables : list frame) (x : ident) : option nat :=
@@ -475,6 +553,7 @@ Fixpoint ev (fuel : nat) (stack : list frame) (fr : option frame) (e : expr) (st
                       | EntErr => Err ETypeErr
                       | EntAnom k => Anomaly k
                       end
+                  | VBuiltin b => match call_builtin b vs with Some z => Ok (VInt z) st2 | None => Err ETypeErr end
                   | _ => Err ETypeErr
                   end
               | Err e => Err e | Fuel => Fuel | Anomaly k => Anomaly k
@@ -529,6 +608,12 @@ with ex (fuel : nat) (stack : list frame) (fr : option frame) (ss : list stmt) (
               | CapErr => Err ESyntaxErr
               | CapAnom k => Anomaly k
               end
+          | SWrap w body =>
+              (* the body runs once, in place (a `return` inside ends the function); `for w_ in [0]` binds w_ first *)
+              match w with
+              | WFor => ex n stack fr (SAssign "w_"%string (EConst 0) :: body ++ r) st
+              | _ => ex n stack fr (body ++ r) st
+              end
           end
       end
   end.
@@ -543,7 +628,7 @@ Definition py_run := run_module py_policy.
 
 (* ---------- what is observed of a run ---------- *)
 Inductive oval := OInt (z : Z) | ONone | OFun.
-Definition oval_of (v : val) : oval := match v with VInt z => OInt z | VNone => ONone | VClo _ _ => OFun end.
+Definition oval_of (v : val) : oval := match v with VInt z => OInt z | VNone => ONone | VClo _ _ | VBuiltin _ => OFun end.
 Inductive observed :=
   | ObsOk (trace : list (option Z)) (globals : list (ident * oval))
   | ObsErr (e : err)
